@@ -67,6 +67,9 @@ def is_framed(node):
         'bls12_381_fr',
         'chain_id',
         'never',
+        'chest',
+        'chest_key',
+        'tx_rollup_l2_address',
     }:
         return 'annots' in node
     return False
